@@ -10,18 +10,18 @@ from . import prog_common as PC
 from .c23 import fmt_answer, TIMEOUT_MSG
 
 ANCHORS = ['make_query', 'make_base_node', 'next_solution', 'solve', 'solve_all', 'start_query_timer', 'query_stopped', 'count_rules', 'clear_id']
-WITNESSES = {'all': ['history-abandoned', 'history-exhausted-and-reasked', 'history-timed-out', 'probe-next_solution', 'probe-solve', 'probe-solve_all', 'has-answers']}
+WITNESSES = {'all': ['history-abandoned', 'history-exhausted-and-reasked', 'history-timed-out', 'history-real-expiry', 'exhausted-query-reasked-during-probe', 'probe-next_solution', 'probe-solve', 'probe-solve_all', 'has-answers']}
 OPTS = {'quick': {'selfcheck_mod': 30, 'budget_s': 280}, 'thorough': {'selfcheck_mod': 300, 'budget_s': 3000}}
 STEP_LIMIT = 2_500_000
 NEEDS_HOOKS = True
 BOUNDS = {
     'quick': 'one knowledge base (t1..t6 over the base facts: conjunction, disjunction, recursion, not, cut, arithmetic); histories of 0-2 earlier operations, each = one of 4 queries run by one of: '
              'next_solution x1 then abandoned, next_solution to exhaustion then asked twice more, solve once, solve_all, solve_all with the (modelled) timer firing at its 1st / 3rd observation, '
-             'solve with the timer firing at its 2nd observation; then the probe (each of 4 queries built with make_query after the history, and 4 source texts incl. a zero-arity query built with parse_query) run by next_solution, by solve and by solve_all; '
+             'solve with the timer firing at its 2nd observation, next_solution x1 followed by a real expiry of a timer started with start_query_timer and its cancel_timer; then the probe (each of 4 queries built with make_query after the history, and 4 source texts incl. a zero-arity query built with parse_query) run by next_solution, by solve and by solve_all, and by next_solution with every exhausted query of the history asked again between two answers of the probe; '
              'the probe\'s answers and output must equal the reference answers of that query',
     'thorough': 'histories of up to 3 operations',
 }
-OUTSIDE = 'resuming an older solution node after a newer query was constructed (one query at a time, as documented); real elapsed time'
+OUTSIDE = 'resuming an older, unfinished solution node after a newer query was constructed (one query at a time, as documented; asking an exhausted older query again is inside the claim); real elapsed time'
 ASSUMPTIONS = ['the timer firing is the modelled event / the cfg(suiron_verif) countdown hook natively',
                'a timer that a driver call leaves running (never cancelled) is allowed to fire at any of the first observations of the next query']
 
@@ -37,7 +37,7 @@ KB = [
 ]
 QUERIES = [C('t1', X), C('t3', X), C('t4', X), C('t6', X)]
 HQ = [C('t2', X), C('t3', X), C('t5', X), C('t1', A('b'))]
-HOPS = ['next1', 'exhaust', 'solve', 'solve_all', 'solve_all_fire0', 'solve_all_fire2', 'solve_fire1']
+HOPS = ['next1', 'exhaust', 'solve', 'solve_all', 'solve_all_fire0', 'solve_all_fire2', 'solve_fire1', 'expire']
 PROBES = ['next_solution', 'solve', 'solve_all']
 TEXT_PROBES = ['t1($X)', 'ready', 't3($X).', 'ready.']      # built by parse_query from source text
 
@@ -46,7 +46,7 @@ def cases(tier, seed):
     out = []
     hist1 = [(q, op) for q in range(len(HQ)) for op in HOPS]
     hists = [[]] + [[h] for h in hist1]
-    two = [[a, b] for a in hist1 for b in hist1 if (a[1].endswith(('fire0', 'fire2', 'fire1')) or b[1].endswith(('fire0', 'fire2', 'fire1')) or a[1] == 'exhaust')]
+    two = [[a, b] for a in hist1 for b in hist1 if (a[1].endswith(('fire0', 'fire2', 'fire1', 'expire')) or b[1].endswith(('fire0', 'fire2', 'fire1')) or a[1] == 'exhaust')]
     hists += two[::3] if tier == 'quick' else two
     if tier != 'quick':
         three = [[a, b, c] for a in hist1[::3] for b in hist1[::4] for c in hist1[::5]]
@@ -57,7 +57,7 @@ def cases(tier, seed):
                 for pr in PROBES[:2]:
                     out.append({'id': 'history %s then probe %r (parse_query) via %s' % ([('%s:%s' % (P.ttext(HQ[q]), op)) for q, op in h], TEXT_PROBES[ti], pr), 'hist': h, 'text': ti, 'probe': 0, 'via': pr})
         for qi in range(len(QUERIES)):
-            for pr in PROBES:
+            for pr in PROBES + (['next_solution+reask'] if any(op == 'exhaust' for _, op in h) else []):
                 if len(h) == 2 and (qi + len(out)) % 2: continue
                 out.append({'id': 'history %s then probe %s via %s' % ([('%s:%s' % (P.ttext(HQ[q]), op)) for q, op in h], P.ttext(QUERIES[qi]), pr), 'hist': h, 'probe': qi, 'via': pr})
     return out
@@ -79,6 +79,7 @@ def run(drv, case):
         return {'tags': ['outside-claim'], 'nontrivial': False}
     kb = P.build_kb(drv, kbc)
     tags = set()
+    exhausted_nodes = []
     try:
         for qi, op in case['hist']:
             hq = HQ[qi]
@@ -91,6 +92,9 @@ def run(drv, case):
                     r = drv.next(node)
                     if r.h is None: break
                 drv.next(node); drv.next(node); tags.add('history-exhausted-and-reasked')
+                if r.h is None: exhausted_nodes.append(node)
+            elif op == 'expire':
+                drv.next(node); drv.expire(); tags.add('history-timed-out'); tags.add('history-real-expiry')
             elif op == 'solve': drv.solve(node)
             elif op == 'solve_all': drv.solve_all(node)
             else:
@@ -114,6 +118,8 @@ def run(drv, case):
             tags.add('leaked-timer-fires')
         qv = drv.dump(q)
         via = case['via']
+        reask = via.endswith('+reask')
+        if reask: via = 'next_solution'; tags.add('exhausted-query-reasked-during-probe')
         tags.add('probe-' + via)
         if via == 'next_solution':
             run = P.Run(); run.answers, run.outs, run.exhausted = [], [], False
@@ -122,6 +128,11 @@ def run(drv, case):
                 run.outs.append(drv.outs[-1])
                 if r.h is None: run.exhausted = True; break
                 run.answers.append(drv.answer(q, r))
+                if reask:
+                    # an older query that is already exhausted is asked once more between two answers of the probe: it has no more answers
+                    # and the probe goes on as if nothing had happened
+                    for old in exhausted_nodes:
+                        if drv.next(old).h is not None: raise Violation('exhausted-query-answers-again', '%s: an exhausted query gives another answer' % desc)
             problem = P.compare_runs(m, run, ref, desc)
             if problem: raise Violation('probe-' + problem[0], problem[1])
             if run.answers: tags.add('has-answers')
